@@ -45,6 +45,11 @@ def plan(tier, seed):
             for i in range(n):
                 units.append({'kind': 'peer', 'proto': proto, 'victim': victim, 'slice': i, 'nslices': n, 'weight': 4,
                               'count': 30 if tier == 'quick' else 120})
+    na = 2 if tier == 'quick' else 6
+    for rep in range(1 if tier == 'quick' else 8):
+        for proto in ('tlcp', 'tls12', 'tls13'):
+            for i in range(na):
+                units.append({'kind': 'authpeer', 'proto': proto, 'slice': i, 'nslices': na, 'rep': rep, 'weight': 4})
     return units
 
 
@@ -532,8 +537,148 @@ def u_peer(ctx, u):
     cli_ctx.free()
 
 
+def _auth_cases13(rng):
+    """(name, inner content type, inner payload, padding) of records a TLS 1.3 peer that holds the traffic keys can send after
+    the handshake.  All of them carry a valid tag: they reach the post-handshake parser, which a man in the middle cannot."""
+    hs = lambda t, b: bytes([t]) + len(b).to_bytes(3, 'big') + b
+    cases = [('empty-application-data', 23, b'', 0), ('empty-application-data-padded', 23, b'', 255), ('one-byte', 23, b'x', 0),
+             ('max-plaintext', 23, rng.randbytes(16384), 0), ('max-plaintext-plus-1', 23, rng.randbytes(16385), 0),
+             ('max-plaintext-padded', 23, rng.randbytes(16384), 255), ('oversize', 23, rng.randbytes(16384 + 1024), 0),
+             ('all-padding', 0, b'', 40), ('inner-type-0-with-data', 0, b'abc', 0), ('inner-type-unknown', 99, b'abc', 3),
+             ('inner-change-cipher-spec', 20, b'\x01', 0), ('alert-close-notify', 21, b'\x01\x00', 0), ('alert-fatal', 21, b'\x02\x28', 0),
+             ('alert-one-byte', 21, b'\x02', 0), ('alert-three-bytes', 21, b'\x01\x00\x00', 0), ('alert-empty', 21, b'', 0),
+             ('key-update-0', 22, hs(24, b'\x00'), 0), ('key-update-1', 22, hs(24, b'\x01'), 0), ('key-update-junk', 22, hs(24, b'\x07\x07'), 0),
+             ('key-update-empty', 22, hs(24, b''), 0), ('new-session-ticket', 22, hs(4, rng.randbytes(40)), 0),
+             ('new-session-ticket-empty', 22, hs(4, b''), 0), ('post-handshake-certificate-request', 22, hs(13, b'\x00\x00\x00'), 0),
+             ('post-handshake-finished', 22, hs(20, rng.randbytes(32)), 0), ('post-handshake-client-hello', 22, hs(1, rng.randbytes(60)), 0),
+             ('handshake-header-only', 22, b'\x18\x00\x00', 0), ('handshake-length-beyond-record', 22, b'\x18\x00\xff\xff\x00', 0),
+             ('handshake-two-messages', 22, hs(24, b'\x00') + hs(24, b'\x00'), 0), ('handshake-empty', 22, b'', 0)]
+    for _ in range(6):
+        cases.append(('random-inner', rng.choice([20, 21, 22, 23, 24, rng.randrange(256)]), rng.randbytes(rng.choice([0, 1, 2, 5, 64, 300])),
+                      rng.choice([0, 0, 1, 17])))
+    return cases
+
+
+def _auth_cases_cbc(rng):
+    hs = lambda t, b: bytes([t]) + len(b).to_bytes(3, 'big') + b
+    cases = [('empty-application-data', 23, b''), ('one-byte', 23, b'x'), ('max-plaintext', 23, rng.randbytes(16384)),
+             ('max-plaintext-plus-1', 23, rng.randbytes(16385)), ('oversize', 23, rng.randbytes(16384 + 1500)),
+             ('alert-close-notify', 21, b'\x01\x00'), ('alert-fatal', 21, b'\x02\x28'), ('alert-one-byte', 21, b'\x02'),
+             ('alert-three-bytes', 21, b'\x01\x00\x00'), ('alert-empty', 21, b''), ('hello-request', 22, hs(0, b'')),
+             ('renegotiation-client-hello', 22, hs(1, rng.randbytes(60))), ('post-handshake-finished', 22, hs(20, rng.randbytes(12))),
+             ('handshake-header-only', 22, b'\x00\x00\x00'), ('handshake-length-beyond-record', 22, b'\x01\x00\xff\xff\x00'),
+             ('handshake-empty', 22, b''), ('change-cipher-spec-protected', 20, b'\x01'), ('type-unknown', 99, b'abc'), ('type-0', 0, b'abc')]
+    for _ in range(6):
+        cases.append(('random', rng.choice([20, 21, 22, 23, rng.randrange(256)]), rng.randbytes(rng.choice([0, 1, 2, 5, 64, 300]))))
+    return cases
+
+
+def u_authpeer(ctx, u):
+    """The library server after a complete handshake with the Python peer (which therefore holds the traffic keys): every
+    case is one or two validly protected records of unusual content, then the server reads until it reports an error or
+    the stream ends.  Monitors: sanitizers, hangs, tls_recv never reporting more than the capacity."""
+    import socket
+    import threading
+    from .. import tlsutil as T
+    from ..ref import sm2 as R
+    from ..ref import tls as RT
+    from .. import hostile13 as H13
+    from .. import hostile_tlcp as HT
+    rng = ctx.rng
+    pname = u['proto']
+    proto = T.PROTOS[pname]
+    creds = T.Creds(ctx, 'c06a-%s' % pname, 1)
+    srv_ctx, cli_ctx = T.pair_ctx(ctx, creds, proto, False)
+    base = T.run_handshake(ctx, srv_ctx, cli_ctx, seed=77, use_proxy=True)
+    ok = base['server'].ret == 1 and base['client'].ret == 1
+    ch = [r for i, d, r in base['proxy'].records if d == 'c>s' and r[0] == T.REC_HANDSHAKE and r[5] == 1]
+    T.close_pair(base)
+    if not ctx.check(ok and ch, 'peer:baseline-handshake-failed:' + pname):
+        return
+    cases = _auth_cases13(rng) if pname == 'tls13' else _auth_cases_cbc(rng)
+    cases = [c for i, c in enumerate(cases) if i % u['nslices'] == u['slice']]
+    delivered = 0
+    for case in cases:
+        name = case[0]
+        c_end, s_end = socket.socketpair()
+        srv = T.Endpoint(ctx, srv_ctx, s_end, 's', rng.randrange(1, 1 << 30), bool(rng.getrandbits(1)))
+        th = threading.Thread(target=srv.handshake)
+        th.start()
+        good = False
+        try:
+            ctx.begin(['authpeer', pname, name])
+            if pname == 'tls13':
+                cl = H13.Client(c_end, ch[0], rng.randrange(1, R.N - 1))
+                if cl.start():
+                    cl.send_hs(cl.finished_msg())
+                    good = True
+            else:
+                cl = HT.Client(c_end, ch[0], R.pub(creds.enc_priv), rng) if pname == 'tlcp' else HT.Client12(c_end, ch[0], rng)
+                if cl.start():
+                    cl.send_plain(cl.client_key_exchange())
+                    cl.change_cipher_spec()
+                    cl.finished()
+                    good = bool(cl.read_server_finished())
+        except (OSError, ValueError):
+            good = False
+        th.join(20)
+        if not (good and srv.ret == 1 and not th.is_alive()):
+            ctx.stat('authpeer_handshake_not_completed')
+            for sk in (c_end, s_end):
+                sk.close()
+            continue
+        outcome = []
+
+        def reader():
+            srv.thread_setup()
+            for _ in range(4):
+                r, d, over = srv.recv(rng.choice([1, 100, 16384, 20000]))
+                outcome.append((r, len(d), over))
+                if r != 1:
+                    break
+        t2 = threading.Thread(target=reader)
+        t2.start()
+        try:
+            if pname == 'tls13':
+                (ck, civ), _ = cl.ks.app_keys(cl.transcript_at_server_finished)
+                inner = case[2] + bytes([case[1]]) + bytes(case[3])
+                if case[0] == 'all-padding':
+                    inner = bytes(case[3])
+                c_end.sendall(RT.tls13_protect_raw_inner(ck, civ, (0).to_bytes(8, 'big'), inner))
+                c_end.sendall(RT.tls13_protect(ck, civ, (1).to_bytes(8, 'big'), 23, b'after', 0))
+            else:
+                c_end.sendall(RT.cbc_protect(cl.c_mac, cl.c_key, cl.cseq.to_bytes(8, 'big'), case[1], cl.version, case[2], rng.randbytes(16)))
+                c_end.sendall(RT.cbc_protect(cl.c_mac, cl.c_key, (cl.cseq + 1).to_bytes(8, 'big'), 23, cl.version, b'after', rng.randbytes(16)))
+            c_end.shutdown(socket.SHUT_WR)
+            delivered += 1
+        except OSError:
+            pass
+        t2.join(20)
+        if t2.is_alive():
+            try:
+                c_end.shutdown(socket.SHUT_RDWR)
+            except OSError:
+                pass
+            t2.join(10)
+            ctx.check(not t2.is_alive(), 'hang:tls-recv-after-authenticated-record:%s' % pname, case=name)
+        ctx.check(not any(o[2] for o in outcome), 'peer:recv-reported-more-than-capacity:%s' % pname, case=name, outcome=outcome)
+        ctx.ok()
+        ctx.nontrivial('authpeer', pname, name, tuple(o[0] for o in outcome))
+        ctx.stat('authpeer_cases')
+        ctx.stat('authpeer_recv_%s' % ('accepted-something' if any(o[0] == 1 for o in outcome) else 'refused'))
+        for sk in (c_end, s_end):
+            try:
+                sk.close()
+            except OSError:
+                pass
+        srv.conn.free()
+    ctx.sample({'kind': 'authpeer', 'proto': pname, 'cases': len(cases), 'delivered': delivered})
+    srv_ctx.free()
+    cli_ctx.free()
+
+
 def run_unit(ctx, u):
-    {'seeds': u_seeds, 'peer': u_peer}[u['kind']](ctx, u)
+    {'seeds': u_seeds, 'peer': u_peer, 'authpeer': u_authpeer}[u['kind']](ctx, u)
 
 
 # =====================================================================================
